@@ -384,6 +384,31 @@ func ssoAdversarial(r *core.Run, prop string) {
 				carriedAll(resp)
 			}
 		}
+		// the application switches signature checking (off for a migration, on again afterwards) on the very
+		// SP that has just accepted this payload, and the same payload arrives again: what the second answer
+		// says about signatures is decided under the setting in force then
+		if prop == "C04" && !r.Failed() && out.OK() && t.Int(4, "adv.toggle") == 1 {
+			sp := s.Node.SP
+			sp.SkipSignatureValidation = !sp.SkipSignatureValidation
+			s.Cfg.SkipSig = sp.SkipSignatureValidation
+			ctx["skip"], ctx["redelivered_after_toggling_signature_checking"] = s.Cfg.SkipSig, true
+			r.Fault("signature_checking_toggled_then_redelivery")
+			if useRetrieve {
+				if ai, o := s.Node.Retrieve(enc); o.OK() {
+					if s.Cfg.SkipSig && ai.ResponseSignatureValidated {
+						r.Fail("flags", prop+"/flag-true-with-checking-off/AssertionInfo", ctx)
+					} else if !s.Cfg.SkipSig {
+						infoConservation(r, prop, ai, ctx)
+					}
+				}
+			}
+			if resp, o := s.Node.ValidateResponse(enc); o.OK() && !r.Failed() {
+				if conservation(r, prop, resp, logs, store, now, s.Cfg.SkipSig, ctx) && located(resp) {
+					carriedAll(resp)
+				}
+			}
+			r.Steps++
+		}
 		r.Steps++
 		r.Logf("delivery %d op=%s (%s) compress=%v retrieve=%v -> %s %s", dIdx, op, atk.Detail, compress, useRetrieve, out.Class(), world.ErrClass(out.Err))
 		r.Shape(fmt.Sprintf("%s|%s|%s|c%v|r%v|%s", histSig, op, atk.Detail, compress, useRetrieve, out.Class()))
